@@ -71,6 +71,9 @@ pub struct Faults {
     pub unplug: Option<(usize, u64)>,
     /// Duplicate every n-th response.
     pub dup_every: u64,
+    /// Device `d` does not service frame number `at` (it forwards it untouched: a transient
+    /// dropout of exactly one frame; devices behind it still see the frame).
+    pub miss: Option<(usize, u64)>,
     /// Logical read/write answers: XOR every data byte that no read FMMU of any device supplied
     /// with this (non-zero) value. "Arbitrary device answers" for the bytes of an LRW the MainDevice
     /// must not take over (its own outputs, gaps): legal on a real segment whenever some read FMMU
@@ -267,7 +270,20 @@ impl Net {
             self.malformed.push(format!("frame {}: header/flags inconsistent: len {} sum {sum}, dgrams {}", self.frame_no, f.ecat_len, f.dgrams.len()));
         }
         let tx_copy = f.clone();
-        let ring = self.ring();
+        let mut ring = self.ring();
+        if let Some((d, at)) = self.faults.miss {
+            if at == self.frame_no {
+                ring.retain(|i| *i != d);
+                if ring.is_empty() {
+                    // somebody still forwards the frame (U/L bit set), nobody services it
+                    f.src = wire::MAC_RETURNED;
+                    if self.keep_log {
+                        self.log.push(WireLog { frame_no: self.frame_no, tx: tx_copy, rx: Some(f.clone()), t_us: vclock::now() });
+                    }
+                    return Some(wire::encode_frame(&f));
+                }
+            }
+        }
         if ring.is_empty() {
             if self.empty_sets_ul_bit {
                 f.src = wire::MAC_RETURNED;
